@@ -466,6 +466,14 @@ class DiffXReader(object):
                 validate.
         """
         fp = self._fp
+
+        if indent is not None and (not isinstance(indent, int) or
+                                   indent < 0):
+            raise DiffXParseError(
+                'Expected the indent option to be a non-negative integer, '
+                'not "%s"' % indent,
+                linenum=self._linenum - 1)
+
         content = fp.read(length)
 
         # First, determine the line endings that we're going to be working
@@ -495,9 +503,8 @@ class DiffXReader(object):
             # or due to some error the indentation on some line may be
             # wrong. Be careful to strip only the spaces, up to the specified
             # indentation level.
-            indent_re = re.compile(br'^ {1,%d}' % indent)
             content = b''.join(
-                indent_re.sub(b'', _line)
+                _line[min(indent, len(_line) - len(_line.lstrip(b' '))):]
                 for _line in lines
             )
 
